@@ -65,6 +65,32 @@ for _v in ('CS_FluorShell_Kissel', 'CS_FluorShell_Kissel_Cascade', 'CS_FluorShel
     IDIOMS.setdefault(_v, {})['consts'] = 'the K..M5 dispatch is written once in a Java template method and expanded per function by a C macro'
 
 
+# Pairs that are compared SEMANTICALLY (rule twin-paths, xvlib/twinpaths.py): both bodies are run through the abstract interpreter and
+# the sets of value-returning paths (normal form of the result + what the path knows about its sign) must be equal.  The list is the
+# set of pairs for which the two sets are equal on the reference tree (confirmed, frozen); for them the comparison of source
+# fingerprints (named constants, callees, literals, tested results) is NOT applied: a refactoring of one side does not change the
+# path set, a change of behaviour does.  A pair the engine cannot read after an edit falls back to the fingerprints.
+SEMANTIC_PAIRS = (
+    'AtomicLevelWidth', 'AtomicWeight', 'AugerRate', 'AugerYield', 'CS_FluorLine', 'CS_FluorLine_Kissel', 'CS_FluorShell_Kissel',
+    'CS_KN', 'CS_Photo_Partial', 'CS_Photo_Total', 'CS_Total', 'CS_Total_Kissel', 'CSb_Compt', 'CSb_FluorLine',
+    'CSb_FluorLine_Kissel_Cascade', 'CSb_FluorLine_Kissel_Nonradiative_Cascade', 'CSb_FluorLine_Kissel_Radiative_Cascade',
+    'CSb_FluorLine_Kissel_no_Cascade', 'CSb_FluorShell', 'CSb_FluorShell_Kissel_Cascade',
+    'CSb_FluorShell_Kissel_Nonradiative_Cascade', 'CSb_FluorShell_Kissel_Radiative_Cascade', 'CSb_FluorShell_Kissel_no_Cascade',
+    'CSb_Photo', 'CSb_Rayl', 'CSb_Total', 'CSb_Total_Kissel', 'ComptonEnergy', 'CosKronTransProb', 'DCSP_Compt', 'DCSP_KN',
+    'DCSP_Rayl', 'DCSP_Thoms', 'DCSPb_Compt', 'DCSPb_Rayl', 'DCS_Compt', 'DCS_KN', 'DCS_Rayl', 'DCS_Thoms', 'DCSb_Compt',
+    'DCSb_Rayl', 'EdgeEnergy', 'ElectronConfig_Biggs', 'ElementDensity', 'FluorYield', 'JumpFactor', 'Jump_from_K',
+    'Jump_from_L1', 'Jump_from_L2', 'Jump_from_L3', 'LineEnergyComposed', 'MomentTransf', 'PL1_auger_cascade_kissel',
+    'PL1_full_cascade_kissel', 'PL1_pure_kissel', 'PL1_rad_cascade_kissel', 'PL2_auger_cascade_kissel',
+    'PL2_full_cascade_kissel', 'PL2_pure_kissel', 'PL2_rad_cascade_kissel', 'PL3_auger_cascade_kissel',
+    'PL3_full_cascade_kissel', 'PL3_pure_kissel', 'PL3_rad_cascade_kissel', 'PM1_auger_cascade_kissel',
+    'PM1_full_cascade_kissel', 'PM1_pure_kissel', 'PM1_rad_cascade_kissel', 'PM2_auger_cascade_kissel',
+    'PM2_full_cascade_kissel', 'PM2_pure_kissel', 'PM2_rad_cascade_kissel', 'PM3_auger_cascade_kissel',
+    'PM3_full_cascade_kissel', 'PM3_pure_kissel', 'PM3_rad_cascade_kissel', 'PM4_auger_cascade_kissel',
+    'PM4_full_cascade_kissel', 'PM4_pure_kissel', 'PM4_rad_cascade_kissel', 'PM5_auger_cascade_kissel',
+    'PM5_full_cascade_kissel', 'PM5_pure_kissel', 'PM5_rad_cascade_kissel', 'RadRate',
+)
+
+
 # an idiom on constants may cover one family only (regex on the constant's name); the other constants of the pair are still compared
 IDIOM_SCOPE = {'CS_FluorShell': {'consts': r'_SHELL$'}, 'CS_FluorLine': {'consts': r'_SHELL$'}}
 
@@ -95,6 +121,18 @@ def run(prog, tier):
     chk.coverage_extra['data_equivalent_tables'] = sorted('%s=%s' % kv for kv in eq.items())
     energy_ok = cs_energy_limit(prog)
     compared = 0
+    from xvlib.twinpaths import TwinPaths
+    from rules.common import strip_err_text, register_error_functions
+    register_error_functions(prog)
+    TP = TwinPaths(prog, C, J, strip_err_text, cvalue, jvalue)
+    import json as _json
+    import os as _os
+    try:
+        TWIN_REF = _json.load(open(_os.path.join(_os.path.dirname(_os.path.dirname(_os.path.abspath(__file__))), 'selftest', 'twin_reference.json')))
+    except Exception:
+        TWIN_REF = {}
+    chk.coverage_extra['reference_pairs'] = len(TWIN_REF)
+    chk.coverage_extra['semantic_pairs'] = len(SEMANTIC_PAIRS)
     for n in pairs:
         jf, cf = J.funcs[n], C.funcs[n]
         loc = '%s:%d' % (JX, jf['ln'])
@@ -108,7 +146,29 @@ def run(prog, tier):
         if n == 'CS_Energy' and not energy_ok:
             idi = {}
 
+        sem = TP.compare(n) if n in SEMANTIC_PAIRS else None
+        unchanged = False
+        if sem is None and n in TWIN_REF:
+            # both sides still have the path set they had when their fingerprints were compared on the reference tree
+            try:
+                unchanged = TP.reference_forms('c', cf) == TWIN_REF[n]['c'] and TP.reference_forms('j', jf) == TWIN_REF[n]['j']
+            except Exception:
+                unchanged = False
+            if unchanged:
+                chk.ok('twin-unchanged', n, 'both sides have the path sets of the reference tree, on which their fingerprints were equal', loc, nontrivial=False)
+        if sem is not None:
+            chk.decide(sem[0], 'twin-paths', JX, n, 'value paths', loc,
+                       'the C function and its Java twin do not return the same values on the same kinds of paths: only C returns %s; only Java returns %s '
+                       '(C %s:%d)' % ([x[:160] for x in sem[1][:3]], [x[:160] for x in sem[2][:3]], cf['rel'], cf['ln']),
+                       why='same set of value paths (normal form of the result and sign knowledge)')
+
         def decide(cat, ok, msg, why):
+            if sem is not None and cat in ('consts', 'calls', 'lits', 'result-guards'):
+                chk.ok('twin-' + cat, n, 'decided semantically by twin-paths', loc, nontrivial=False)
+                return
+            if unchanged and cat in ('consts', 'calls', 'lits', 'result-guards'):
+                chk.ok('twin-' + cat, n, 'both sides semantically unchanged since the reference comparison', loc, nontrivial=False)
+                return
             if cat in idi or '*' in idi:
                 chk.ok('twin-' + cat, n, 'translation idiom: ' + idi.get(cat, idi.get('*')), loc, nontrivial=False)
                 return
@@ -119,7 +179,7 @@ def run(prog, tier):
         la, lb = Counter(a.lits), Counter(b.lits)
         cancel_names(d1, lb - la, lambda k: Fraction(C.const_values[k]) if k in C.const_values else cvalue(prog, k), lb)
         cancel_names(d2, la - lb, lambda k: jvalue(J, k), la)
-        if n in IDIOM_SCOPE and 'consts' in IDIOM_SCOPE[n]:
+        if n in IDIOM_SCOPE and 'consts' in IDIOM_SCOPE[n] and sem is None and not unchanged:
             # the idiom covers one family of constants only; all other named constants are compared as usual
             rx = re.compile(IDIOM_SCOPE[n]['consts'])
             o1 = Counter({k: v for k, v in d1.items() if not rx.search(k)})
@@ -208,7 +268,8 @@ def run(prog, tier):
     value_searches(prog, chk)
     parser_twin(prog, chk, C, J)
     writer_precision(prog, chk)
-    twin_forms(prog, chk, C, J)
+    twin_forms(prog, chk, C, J, TP, TWIN_REF)
+    const_tables(prog, chk, J)
     return chk
 
 
@@ -431,9 +492,21 @@ def local_forms(prog, side, f, alpha=False):
     return out
 
 
-def twin_forms(prog, chk, C, J):
+def twin_forms(prog, chk, C, J, TP=None, TWIN_REF=None):
     n = 0
     for name in LOCAL_FORM_PAIRS:
+        if name in SEMANTIC_PAIRS and TP is not None and TP.compare(name) is not None:
+            n += 1
+            chk.ok('twin-forms', name, 'decided semantically by twin-paths', JX, nontrivial=False)
+            continue
+        if TP is not None and TWIN_REF and name in TWIN_REF and name in C.funcs and name in J.funcs:
+            try:
+                if TP.reference_forms('c', C.funcs[name]) == TWIN_REF[name]['c'] and TP.reference_forms('j', J.funcs[name]) == TWIN_REF[name]['j']:
+                    n += 1
+                    chk.ok('twin-forms', name, 'both sides semantically unchanged since the reference comparison', JX, nontrivial=False)
+                    continue
+            except Exception:
+                pass
         if name not in C.funcs or name not in J.funcs:
             chk.note('twin-forms: pair %s not present on this tree' % name)
             continue
@@ -448,6 +521,60 @@ def twin_forms(prog, chk, C, J):
                    'the two translations combine their local values differently: only in C %s, only in Java %s (C %s:%d)' % (
                        dict(a - b), dict(b - a), cf['rel'], cf['ln']), why='same %d local formulas' % sum(a.values()))
     chk.floor('pairs with literal local arithmetic', n, 10)
+
+
+def const_tables(prog, chk, J):
+    """Constant tables of records that both implementations carry under the same name (line_mappings: which line range belongs to which
+    shell; lb_pairs: the L-beta members and their shells): the rows must be equal, value by value and in the same order.  The functions
+    that walk these tables are translation idioms in the pair comparison, so the tables themselves are where they can differ."""
+    from xvlib import inittab
+
+    def jconst(name, depth=0):
+        fl = J.consts.get(name) or J.fields.get(name)
+        if not fl or depth > 4:
+            return None
+        i = strip_casts(fl.get('init') or {})
+        if isinstance(i.get('v'), int):
+            return i['v']
+        if i.get('k') == 'IntegerLiteral':
+            return int(i['val'])
+        if i.get('k') == 'UnaryOperator' and i.get('op') == '-' and strip_casts(i['c'][0]).get('k') == 'IntegerLiteral':
+            return -int(strip_casts(i['c'][0])['val'])
+        if i.get('k') == 'DeclRefExpr':
+            return jconst(i.get('name'), depth + 1)
+        if i.get('k') == 'MemberExpr':
+            return jconst(i.get('field'), depth + 1)
+        return None
+    n = 0
+    for name, fl in sorted(J.fields.items()):
+        init = fl.get('init') or {}
+        if not (fl.get('static') and fl.get('final') and init.get('k') == 'NewArray'):
+            continue
+        rows_j = [x for x in walk(init) if x.get('k') == 'NewExpr']
+        gs = [g for g in prog.globals_named(name) if g.get('init') and g['unit'].startswith('src/')]
+        if not rows_j or not gs:
+            continue
+        try:
+            rows_c = [[int(v.value if hasattr(v, 'value') else v) for v in r_] for r_ in inittab.evaluate(gs[0]['init'])]
+        except Exception:
+            continue
+        vj = []
+        for r_ in rows_j:
+            row = []
+            for a in r_.get('args', []):
+                a0 = strip_casts(a)
+                v = a0.get('v') if isinstance(a0.get('v'), int) else jconst(a0.get('field') or a0.get('name'))
+                row.append(v)
+            vj.append(row)
+        n += 1
+        # the tables are searched for THE row that matches (disjoint line ranges) or summed over: the order of the rows carries no meaning
+        rows_c, vj = sorted(rows_c, key=str), sorted(vj, key=str)
+        diff = [i for i in range(max(len(rows_c), len(vj))) if i >= len(rows_c) or i >= len(vj) or rows_c[i] != vj[i]]
+        chk.decide(not diff, 'twin-const-tables', JX, name, 'rows', '%s:%d' % (JX, fl.get('ln', 0)),
+                   'the constant table %s differs between C (%s:%d) and Java in row(s) %s: C %s, Java %s' % (
+                       name, gs[0]['unit'], gs[0].get('ln', 0), diff[:4], [rows_c[i] if i < len(rows_c) else None for i in diff[:3]],
+                       [vj[i] if i < len(vj) else None for i in diff[:3]]), why='%d equal rows' % len(rows_c))
+    chk.floor('constant record tables carried by both implementations', n, 2)
 
 
 def writer_precision(prog, chk):
